@@ -4,7 +4,7 @@
 From Coq Require Import List NArith ZArith Bool.
 From Coq Require Extraction.
 From Coq Require Import ExtrOcamlBasic.
-From HV Require Import Model.Big Model.Rat Model.NumText Model.Chars Model.Parse Spec.Grammar Model.Exec Spec.Lang Model.Opt.
+From HV Require Import Model.Big Model.Rat Model.NumText Model.Chars Model.Parse Spec.Grammar Model.Exec Spec.Lang Model.Opt Model.Repl Model.Debug.
 Extraction "model.ml"
   Big.from_vec Big.bminus Big.bneg Big.badd Big.bsub Big.bmul Big.bdiv Big.brem Big.bgcd Big.beq Big.bcmp
   Big.bnew Big.new_pre_fix Big.is_zero Big.to_int Big.wfb Big.bval
@@ -16,4 +16,6 @@ Extraction "model.ml"
   Grammar.decompose Grammar.valid Grammar.flatten Grammar.abstract
   Exec.xcode_of_ucode Exec.state0 Exec.execute_one Exec.run_pre Exec.run_inc Exec.final_state
   Lang.sstep Lang.srun Lang.lstate0 Lang.scmd_of_ucode Lang.value_text
-  Opt.optimize_prog Opt.run_level Opt.all_fixed Opt.pinned.
+  Opt.optimize_prog Opt.run_level Opt.all_fixed Opt.pinned
+  Repl.repl_run
+  Debug.debug_run.
